@@ -19,7 +19,7 @@ use crate::with_spec;
 pub const RULE: &str = "(input, partition of the input into async read results, Poll::Pending pattern, buffered-master set): a scripted AsyncRead owned by the harness hands out the bytes in the given partition (never more than the caller's buffer), \
 answering Poll::Pending (self-waking) at chosen points, driven on futures::executor::block_on; both `next().await` loops and `into_stream()` are exercised. Stage all_partitions: EVERY composition of a small document (valid / truncated / corrupted, length <= 12 quick / <= 15 thorough) into reads, \
 with and without buffered masters. Stage any_partition: the reader mix (valid, non-canonical, mutated, random, adversarial, mid-document; 1 in 12 larger than the 64 KiB transfer buffer) × random partitions (1-byte reads, 1-3, 1-17, up to 300, everything at once) × Pending pattern × buffered sets. \
-Oracle: item sequence, last_emitted_tag_offset() after every item and the first error equal those of the blocking TagIterator over the whole slice; after the end, None is returned again. Non-trivial: partition with >= 2 non-empty reads, or >= 1 Pending; distinct by (input, schedule, buffered set).";
+Oracle: item sequence, last_emitted_tag_offset() after every item and the errors equal those of the blocking TagIterator over the whole slice (any_partition drives both iterators past up to three CorruptedTagData errors — the element is consumed, iteration continues behind it — and compares what follows as well; the other stages stop at the first error); after the end, None is returned again. Non-trivial: partition with >= 2 non-empty reads, or >= 1 Pending; distinct by (input, schedule, buffered set).";
 
 pub const ASSUMPTIONS: &[&str] = &[
     "single-threaded, harness-owned polling: real executors' timing is out of scope by construction",
